@@ -38,8 +38,9 @@ type Config struct {
 	EfdHigh   bool     `json:"efdhigh,omitempty"` // eventfd counter starts near overflow
 	Listeners int      `json:"listeners,omitempty"`
 	MaxSteps  int      `json:"maxsteps,omitempty"`
-	Client    bool     `json:"client,omitempty"` // drive a gnet.Client (NewClient/Start/Dial/Enroll/Stop) instead of a listening engine
-	Serial    bool     `json:"serial,omitempty"` // peers connect one at a time, only when nothing is in transit (exact least-connections oracle)
+	Client    bool     `json:"client,omitempty"`  // drive a gnet.Client (NewClient/Start/Dial/Enroll/Stop) instead of a listening engine
+	Sibling   bool     `json:"sibling,omitempty"` // an older engine runs under the same address (SO_REUSEPORT) and is stopped once this one has booted; the plan's own stop goes through the package-level Stop
+	Serial    bool     `json:"serial,omitempty"`  // peers connect one at a time, only when nothing is in transit (exact least-connections oracle)
 }
 
 // PeerOp is one step of a harness-driven remote peer.
